@@ -390,7 +390,7 @@ KERNELS = [
 # and written as a Lean literal; the obligation is `Gen.c = Model.c` by evaluation in the kernel.
 def C(name, props, file, scope, var, conv, model, imports):
     return dict(name=name, props=props, file=file, func=scope, kind="const", loc=("const", var), conv=conv, model=model, imports=imports,
-                typ={"bytes": "Bytes", "int": "Nat", "oid": "List Nat", "syntax": "Rpc.SyntaxId"}[conv])
+                typ={"bytes": "Bytes", "int": "Nat", "oid": "List Nat", "syntax": "Rpc.SyntaxId", "member": "String"}[conv])
 
 
 KERNELS += [
@@ -433,6 +433,8 @@ def const_value(node):
     import uuid as _uuid
     if isinstance(node, ast.Constant) and isinstance(node.value, (int, str, bytes)) and not isinstance(node.value, bool):
         return node.value
+    if isinstance(node, ast.Attribute) and isinstance(node.value, ast.Name):
+        return ("member", ast.unparse(node))
     if isinstance(node, ast.Call):
         f = ast.unparse(node.func)
         if isinstance(node.func, ast.Attribute) and node.func.attr == "encode" and len(node.args) == 1 and not node.keywords:
@@ -471,6 +473,8 @@ def lean_const(v, conv):
         return str(v)
     if conv == "str" and isinstance(v, str) and all(32 <= ord(ch) < 127 for ch in v):
         return '"' + v.replace("\\", "\\\\").replace('"', '\\"') + '"' 
+    if conv == "member" and isinstance(v, tuple) and v[0] == "member" and all(32 <= ord(ch) < 127 and ch not in '"\\' for ch in v[1]):
+        return '"' + v[1] + '"'
     if conv == "oid" and isinstance(v, str) and all(p.isdigit() for p in v.split(".")):
         return "[" + ", ".join(str(int(p)) for p in v.split(".")) + "]"
     if conv == "syntax" and isinstance(v, tuple) and v[0] == "syntax" and isinstance(v[1], _uuid.UUID):
@@ -539,10 +543,78 @@ KERNELS += [
     L("LayoutFfcKey", ["C11", "C03"], "_gkdi.py", "FFCDHKey", "Gkdi.ffcKeyLayout"),
     L("LayoutSyntaxId", ["C12"], "_rpc/_bind.py", "SyntaxId", "Rpc.syntaxLayout"),
     L("LayoutContextResult", ["C12", "C15"], "_rpc/_bind.py", "ContextResult", "Rpc.resultLayout"),
+    # presentation contexts and the bind / alter-context bodies (AlterContext inherits Bind.pack: resolved through the base class)
+    L("LayoutContextElement", ["C12", "C15"], "_rpc/_bind.py", "ContextElement", "Rpc.contextLayout"),
+    L("LayoutBind", ["C12", "C15"], "_rpc/_bind.py", "Bind", "Rpc.bindLayout"),
+    L("LayoutAlterContext", ["C12", "C15"], "_rpc/_bind.py", "AlterContext", "Rpc.bindLayout"),
+    # the verification trailer, its generic command and the value of the three known commands
+    L("LayoutCommand", ["C12", "C13"], "_rpc/_verification.py", "Command", "Rpc.commandLayout"),
+    L("LayoutVerificationTrailer", ["C12", "C13"], "_rpc/_verification.py", "VerificationTrailer", "Rpc.vtLayout"),
+    dict(L("LayoutBitmaskValue", ["C12", "C13"], "_rpc/_verification.py", "CommandBitmask", "Rpc.bitmaskValueLayout"), value_of="Command"),
+    dict(L("LayoutPContextValue", ["C12", "C13"], "_rpc/_verification.py", "CommandPContext", "Rpc.pcontextValueLayout"), value_of="Command"),
+    dict(L("LayoutHeader2Value", ["C12", "C13"], "_rpc/_verification.py", "CommandHeader2", "Rpc.header2ValueLayout"), value_of="Command"),
 ]
 
 
-def layout_items(fn):
+def find_method(tree, qualname):
+    """`Cls.method`, looked up through single inheritance inside the module when `Cls` does not define it"""
+    cls_name, meth = qualname.split(".")
+    seen = set()
+    while True:
+        cls = find_function(tree, cls_name)
+        if not isinstance(cls, ast.ClassDef) or cls_name in seen:
+            raise Unsupported(f"cannot find {qualname}")
+        seen.add(cls_name)
+        for child in cls.body:
+            if isinstance(child, (ast.FunctionDef, ast.AsyncFunctionDef)) and child.name == meth:
+                return child, cls
+        if len(cls.bases) != 1 or not isinstance(cls.bases[0], ast.Name):
+            raise Unsupported(f"{qualname}: not defined and base classes are {[ast.unparse(b) for b in cls.bases]}")
+        cls_name = cls.bases[0].id
+
+
+def list_fields(cls):
+    """names of the dataclass fields annotated `t.List[...]`"""
+    return {st.target.id for st in cls.body if isinstance(st, ast.AnnAssign) and isinstance(st.target, ast.Name)
+            and ast.unparse(st.annotation).startswith(("t.List[", "typing.List[", "List[", "list["))}
+
+
+def value_join(fn, wrapper):
+    """a known verification command: `[value = <bytes expr>]` then `return <wrapper>(self.command, self.flags, <value>).pack()`;
+    returns a synthetic function `return b"".join([...])` of the value's pieces"""
+    body = [st for st in fn.body if not (isinstance(st, ast.Expr) and isinstance(st.value, ast.Constant))]
+    ret = body[-1]
+    if not (isinstance(ret, ast.Return) and isinstance(ret.value, ast.Call) and isinstance(ret.value.func, ast.Attribute) and ret.value.func.attr == "pack"
+            and not ret.value.args and not ret.value.keywords and isinstance(ret.value.func.value, ast.Call)):
+        raise Unsupported("pack does not end in `return <wrapper>(...).pack()`")
+    inner = ret.value.func.value
+    if not (ast.unparse(inner.func) == wrapper and not inner.keywords and len(inner.args) == 3
+            and ast.unparse(inner.args[0]) == "self.command" and ast.unparse(inner.args[1]) == "self.flags"):
+        raise Unsupported(f"wrapped as {ast.unparse(inner)[:60]}")
+    val = inner.args[2]
+    if len(body) == 2:
+        st = body[0]
+        if not (isinstance(st, ast.Assign) and len(st.targets) == 1 and isinstance(st.targets[0], ast.Name) and isinstance(val, ast.Name)
+                and st.targets[0].id == val.id):
+            raise Unsupported(f"statement before the return: {ast.unparse(st)[:60]}")
+        val = st.value
+    elif len(body) != 1:
+        raise Unsupported(f"{len(body)} statements")
+
+    def pieces(e):
+        if isinstance(e, ast.BinOp) and isinstance(e.op, ast.Add):
+            return pieces(e.left) + pieces(e.right)
+        return [e]
+    if isinstance(val, ast.Call) and ast.unparse(val.func) == "b''.join" and len(val.args) == 1 and isinstance(val.args[0], ast.List) and not val.keywords:
+        elts = val.args[0].elts
+    else:
+        elts = pieces(val)
+    join = ast.Call(func=ast.Attribute(value=ast.Constant(value=b""), attr="join", ctx=ast.Load()), args=[ast.List(elts=list(elts), ctx=ast.Load())], keywords=[])
+    synthetic = ast.FunctionDef(name=fn.name, args=fn.args, body=[ast.Return(value=join)], decorator_list=[], lineno=fn.lineno)
+    return ast.fix_missing_locations(synthetic)
+
+
+def layout_items(fn, lists=frozenset()):
     """[Lean item, ...] for `return b"".join([...])`; locals of the form `(self.x + "\0").encode("utf-16-le")` are named utf16z:x"""
     body = [st for st in fn.body if not (isinstance(st, ast.Expr) and isinstance(st.value, ast.Constant))]
     locs = {}
@@ -574,6 +646,16 @@ def layout_items(fn):
         t = ast.unparse(node)
         if isinstance(node, ast.Name) and node.id in locs:
             return locs[node.id]
+        # b"".join([x.pack() for x in self.f]) / b"".join(x.pack() for x in self.f)
+        if isinstance(node, ast.Call) and ast.unparse(node.func) == "b''.join" and len(node.args) == 1 and not node.keywords \
+                and isinstance(node.args[0], (ast.ListComp, ast.GeneratorExp)):
+            comp = node.args[0]
+            if len(comp.generators) == 1 and not comp.generators[0].ifs and not comp.generators[0].is_async \
+                    and isinstance(comp.generators[0].target, ast.Name) and ast.unparse(comp.elt) == comp.generators[0].target.id + ".pack()":
+                src = ast.unparse(comp.generators[0].iter)
+                if src.startswith("self.") and src.count(".") == 1 and src[5:] in lists:
+                    return "packs:" + src[5:]
+            raise Unsupported(f"joined comprehension {t[:60]}")
         if t.startswith("self.") and t.count(".") == 1:
             return t[5:]
         if t.startswith("self.") and t.endswith(".bytes_le") and t.count(".") == 2:
@@ -596,7 +678,18 @@ def layout_items(fn):
             w = little(e)
             tgt = e.func.value
             if isinstance(tgt, ast.Call) and ast.unparse(tgt.func) == "len" and len(tgt.args) == 1:
-                items.append(f'.lenOf "{ref(tgt.args[0])}" {w}')
+                arg = ast.unparse(tgt.args[0])
+                if arg.startswith("self.") and arg[5:] in lists:
+                    items.append(f'.countOf "{arg[5:]}" {w}')
+                else:
+                    items.append(f'.lenOf "{ref(tgt.args[0])}" {w}')
+            elif isinstance(tgt, ast.BinOp) and isinstance(tgt.op, ast.Add) and isinstance(tgt.right, ast.Constant) and isinstance(tgt.right.value, int) \
+                    and not isinstance(tgt.right.value, bool) and tgt.right.value >= 0 and isinstance(tgt.left, ast.Call) \
+                    and ast.unparse(tgt.left.func) == "len" and len(tgt.left.args) == 1 and not tgt.left.keywords:
+                items.append(f'.lenPlus {tgt.right.value} "{ref(tgt.left.args[0])}" {w}')
+            elif isinstance(tgt, ast.BinOp) and isinstance(tgt.op, ast.BitOr) and all(
+                    ast.unparse(x).startswith("self.") and ast.unparse(x).endswith(".value") and ast.unparse(x).count(".") == 2 for x in (tgt.left, tgt.right)):
+                items.append(f'.int "{ast.unparse(tgt.left)[5:]}|{ast.unparse(tgt.right)[5:]}" {w}')
             else:
                 r = ref(tgt)
                 if ":" in r:
@@ -617,10 +710,12 @@ def generate_layout(k: dict) -> dict:
     out = {"name": k["name"], "file": k["file"], "func": k["func"]}
     try:
         tree = ast.parse(open(path).read())
-        fn = find_function(tree, k["func"])
+        fn, cls = find_method(tree, k["func"])
         out["line"] = fn.lineno
-        items = layout_items(fn)
-        out["python"] = f"{k['func']}: b''.join of {len(items)} items"
+        if k.get("value_of"):
+            fn = value_join(fn, k["value_of"])
+        items = layout_items(fn, list_fields(cls))
+        out["python"] = f"{cls.name}.{fn.name}: b''.join of {len(items)} items"
     except (Unsupported, OSError, SyntaxError, ValueError, LookupError) as e:
         out["status"] = "unsupported"
         out["reason"] = f"{type(e).__name__}: {e}"
@@ -631,7 +726,7 @@ def generate_layout(k: dict) -> dict:
     name = k["name"]
     body = "[" + ",\n   ".join(items) + "]"
     lean = f"""-- GENERATED by harness/extract.py from src/dpapi_ng/{k['file']}:{out['line']} ({k['func']}) — do not edit.
-import DpapiNg.Proofs.Layout
+{chr(10).join("import DpapiNg." + m for m in k["imports"])}
 namespace DpapiNg.Gen
 open DpapiNg DpapiNg.Layout
 
@@ -897,12 +992,14 @@ KERNELS += [
     F("FieldsContextResult", ["C12", "C15"], "_rpc/_bind.py", "ContextResult.unpack", "Rpc.resultFields"),
     F("FieldsResponse", ["C12", "C16", "C13"], "_rpc/_request.py", "Response._unpack", "Rpc.responseFields"),
     F("FieldsFault", ["C12", "C15"], "_rpc/_pdu.py", "Fault._unpack", "Rpc.faultFields"),
+    F("FieldsHeader2", ["C12", "C13"], "_rpc/_verification.py", "CommandHeader2._unpack", "Rpc.header2Fields"),
 ]
 
 
 def field_table(fn):
     body = [st for st in fn.body if not (isinstance(st, ast.Expr) and isinstance(st.value, ast.Constant))]
-    if len(body) != 2 or ast.unparse(body[0]) != "view = memoryview(data)":
+    if len(body) != 2 or ast.unparse(body[0]) not in ("view = memoryview(data)", "view = memoryview(value)") \
+            or ast.unparse(body[0])[18:-1] not in {a.arg for a in fn.args.args}:
         raise Unsupported("decoder is not `view = memoryview(data); return cls(...)`")
     ret = body[1]
     if not (isinstance(ret, ast.Return) and isinstance(ret.value, ast.Call) and ast.unparse(ret.value.func) == "cls" and not ret.value.args):
@@ -1717,6 +1814,34 @@ KERNELS += [
     CK("CallRootL1", ["C10", "C02"], "KeyCache._get_key", "compute_l1_key", "CryptoCalls.rootL1", file="_client.py"),
 ]
 
+# endpoint-mapper floors and verification-trailer commands (Proofs/WireTables.lean): the raw floor's layout, the protocol / command numbers,
+# which number each known class carries, and what each known floor hands to `Floor(...)`
+_WT = ["Proofs.WireTables"]
+KERNELS += [
+    dict(L("LayoutFloor", ["C12", "C18"], "_epm.py", "Floor", "Epm.floorLayout"), imports=_WT),
+    C("ConstFloorTcp", ["C12", "C18"], "_epm.py", "FloorProtocol", "TCP", "int", "Epm.protoTcp", _WT),
+    C("ConstFloorIp", ["C12", "C18"], "_epm.py", "FloorProtocol", "IP", "int", "Epm.protoIp", _WT),
+    C("ConstFloorRpcCo", ["C12", "C18"], "_epm.py", "FloorProtocol", "RPC_CONNECTION_ORIENTED", "int", "Epm.protoRpcCo", _WT),
+    C("ConstFloorUuid", ["C12", "C18"], "_epm.py", "FloorProtocol", "UUID_ID", "int", "Epm.protoUuid", _WT),
+    C("ConstTcpFloorProtocol", ["C12", "C18"], "_epm.py", "TCPFloor", "protocol", "member", "Epm.tcpFloorProtocol", _WT),
+    C("ConstIpFloorProtocol", ["C12", "C18"], "_epm.py", "IPFloor", "protocol", "member", "Epm.ipFloorProtocol", _WT),
+    C("ConstRpcCoFloorProtocol", ["C12", "C18"], "_epm.py", "RPCConnectionOrientedFloor", "protocol", "member", "Epm.rpcCoFloorProtocol", _WT),
+    C("ConstUuidFloorProtocol", ["C12", "C18"], "_epm.py", "UUIDFloor", "protocol", "member", "Epm.uuidFloorProtocol", _WT),
+    dict(CK("CallFloorTcp", ["C12", "C18"], "TCPFloor.pack", "Floor", "Epm.tcpFloorCall", file="_epm.py"), imports=_WT),
+    dict(CK("CallFloorIp", ["C12", "C18"], "IPFloor.pack", "Floor", "Epm.ipFloorCall", file="_epm.py"), imports=_WT),
+    dict(CK("CallFloorRpcCo", ["C12", "C18"], "RPCConnectionOrientedFloor.pack", "Floor", "Epm.rpcCoFloorCall", file="_epm.py"), imports=_WT),
+    dict(CK("CallFloorUuid", ["C12", "C18"], "UUIDFloor.pack", "Floor", "Epm.uuidFloorCall", file="_epm.py"), imports=_WT),
+    C("ConstCmdBitmask1", ["C12", "C13"], "_rpc/_verification.py", "CommandType", "SEC_VT_COMMAND_BITMASK_1", "int", "Rpc.cmdBitmask1", _WT),
+    C("ConstCmdPContext", ["C12", "C13"], "_rpc/_verification.py", "CommandType", "SEC_VT_COMMAND_PCONTEXT", "int", "Rpc.cmdPContext", _WT),
+    C("ConstCmdHeader2", ["C12", "C13"], "_rpc/_verification.py", "CommandType", "SEC_VT_COMMAND_HEADER2", "int", "Rpc.cmdHeader2", _WT),
+    C("ConstCmdFlagEnd", ["C12", "C13"], "_rpc/_verification.py", "CommandFlags", "SEC_VT_COMMAND_END", "int", "Rpc.cmdFlagEnd", _WT),
+    C("ConstCmdFlagMustProcess", ["C12", "C13"], "_rpc/_verification.py", "CommandFlags", "SEC_VT_MUST_PROCESS_COMMAND", "int", "Rpc.cmdFlagMustProcess", _WT),
+    C("ConstBitmaskCommand", ["C12", "C13"], "_rpc/_verification.py", "CommandBitmask", "command", "member", "Rpc.bitmaskCommand", _WT),
+    C("ConstPContextCommand", ["C12", "C13"], "_rpc/_verification.py", "CommandPContext", "command", "member", "Rpc.pcontextCommand", _WT),
+    C("ConstHeader2Command", ["C12", "C13"], "_rpc/_verification.py", "CommandHeader2", "command", "member", "Rpc.header2Command", _WT),
+    C("ConstVtSignature", ["C12", "C13"], "_rpc/_verification.py", "VerificationTrailer", "signature", "bytes", "Rpc.vtSignature", ["Model.Rpc"]),
+]
+
 
 def callkw_table(fn, callee, with_return, index=None):
     calls = sorted((n for n in ast.walk(fn) if isinstance(n, ast.Call) and ast.unparse(n.func) == callee), key=lambda x: (x.lineno, x.col_offset))
@@ -1775,7 +1900,7 @@ def generate_callkw(k: dict) -> dict:
     q = lambda t: '"' + t.replace("\\", "\\\\").replace('"', '\\"') + '"'
     body = "[" + ", ".join(f"({q(a)}, {q(b)})" for a, b in rows) + "]"
     lean = f"""-- GENERATED by harness/extract.py from src/dpapi_ng/{k['file']}:{out['line']} ({k['func']}) — do not edit.
-import DpapiNg.Model.Crypto
+{chr(10).join("import DpapiNg." + m for m in k["imports"])}
 namespace DpapiNg.Gen
 open DpapiNg
 
